@@ -24,7 +24,7 @@ CLASSES = ["Discretizer", "QuantitativeDiscretizer", "QualitativeDiscretizer", "
 # ------------------------------------------------------------------------------------------------
 def gen_quant_column(rng, n, flavour=None):
     flavour = flavour or rng.choice(["uniform", "uniform", "discrete", "yyyymm", "close", "big",
-                                     "negative", "tiny", "halves"])
+                                     "negative", "tiny", "halves", "timestamp"])
     if flavour == "uniform":
         lo, hi = rng.choice([(0, 1), (-5, 5), (0, 1000), (-1e6, 1e6)])
         xs = [rng.uniform(lo, hi) for _ in range(n)]
@@ -39,6 +39,11 @@ def gen_quant_column(rng, n, flavour=None):
         k = rng.randint(2, 9)
         base = rng.choice([1.0, 1.5, 123.4, 1e-3])
         xs = [base * (1 + rng.randint(0, k - 1) * 1e-5) for _ in range(n)]
+    elif flavour == "timestamp":         # boundaries equal on their first 8-12 significant digits
+        k = rng.randint(3, 9)
+        base, step = rng.choice([(1700000000, 1), (1700000000, 7), (1.5e12, 1), (123456789012.0, 0.5),
+                                 (1.0, 2.0 ** -40), (99999999.0, 0.125)])
+        xs = [base + rng.randint(0, k - 1) * step for _ in range(n)]
     elif flavour == "big":
         xs = [rng.choice([1, -1]) * 10 ** rng.uniform(0, 300) for _ in range(n)]
     elif flavour == "negative":
@@ -338,7 +343,7 @@ def benign_value(col):
     return col[0]
 
 
-def probe_frame(case, name, cells):
+def probe_frame(case, name, cells, dtype="float64"):
     """frame with the fitted columns: `name` holds the probe cells, the others a value seen at fit"""
     import pandas as pd
 
@@ -346,7 +351,7 @@ def probe_frame(case, name, cells):
     for f in case["features"]:
         if f["name"] == name:
             if f["kind"] == "quant":
-                cols[name] = pd.Series(np.array([float(v) for v in cells], dtype=float))
+                cols[name] = as_dtype(cells, dtype)
             else:
                 cols[name] = pd.Series(list(cells), dtype=object)
         else:
@@ -358,12 +363,71 @@ def probe_frame(case, name, cells):
     return pd.DataFrame(cols)
 
 
+INDEX_VARIANTS = ["default", "default", "offset", "shuffled", "str", "selection"]
+
+
+def reindexed(X, variant, rng):
+    """the same rows under a non-default row index (transform must be positional-neutral)"""
+    import pandas as pd
+
+    n = len(X)
+    if variant == "default" or n == 0:
+        return X
+    if variant == "offset":
+        X.index = pd.RangeIndex(1000, 1000 + n)
+    elif variant == "shuffled":
+        idx = list(range(n))
+        rng.shuffle(idx)
+        X.index = pd.Index(idx)
+    elif variant == "str":
+        X.index = pd.Index([f"r{i}" for i in range(n)])
+    elif variant == "selection":          # a row selection of a larger frame
+        big = pd.concat([X, X.iloc[::-1]], ignore_index=True)
+        order = list(range(2 * n))
+        rng.shuffle(order)
+        big = big.iloc[order]
+        big.index = pd.RangeIndex(0, 2 * n)
+        mask = [o < n for o in order]
+        sel = big[mask]
+        pos = {o: i for i, o in enumerate([o for o in order if o < n])}
+        # bring the selected rows back into the original row order, keeping their (odd) labels
+        X = sel.iloc[[pos[i] for i in range(n)]]
+    return X
+
+
+def as_dtype(cells, dtype):
+    """a quantitative probe column stored as float64 / object / nullable Int64 / Float64"""
+    import pandas as pd
+
+    if dtype == "object":
+        return pd.Series([None if C.is_nan(v) else v for v in cells], dtype=object)
+    if dtype == "object-nan":
+        return pd.Series(list(cells), dtype=object)
+    if dtype in ("Int64", "Float64"):
+        return pd.Series([pd.NA if C.is_nan(v) else v for v in cells], dtype=dtype)
+    if dtype == "int64":
+        return pd.Series([int(v) for v in cells], dtype="int64")
+    if dtype == "float32":
+        return pd.Series(np.array(cells, dtype="float32"))
+    return pd.Series(np.array([float(v) for v in cells], dtype=float))
+
+
+def norm_cell(x):
+    import pandas as pd
+
+    if x is None or x is pd.NA:
+        return NAN
+    return x
+
+
 def run_transform(obj, X, names):
     try:
         out = obj.transform(X)
     except Exception as e:  # noqa: BLE001
         return {n: C.exc_class(e) for n in names}, f"{type(e).__name__}: {str(e)[:160]}"
-    return {n: encs(list(out[n])) for n in names}, None
+    if len(out) != len(X) or list(out.index) != list(X.index):
+        return {n: "internal" for n in names}, "transform changed the rows / the index of the frame"
+    return {n: encs([norm_cell(v) for v in out[n]]) for n in names}, None
 
 
 def dedup_pairs(cells, outs):
@@ -663,6 +727,20 @@ class C04(Prop):
                    "params": {"min_freq": 0.1, "output_dtype": "str", "dropna": True},
                    "features": [{"name": "q0", "kind": "quant", "flavour": "yyyymm", "values": encs(xs)}],
                    "y": [1 if (i * 5) % 12 < (x - 202301) else 0 for i, x in enumerate(xs)]})
+        # unix-second timestamps: boundaries equal on their first 9 significant digits
+        xs = [float(1700000000 + (i * 5) % 8) for i in range(160)]
+        cs.append({"cls": "QuantitativeDiscretizer", "json": False,
+                   "params": {"min_freq": 0.1, "output_dtype": "str", "dropna": True},
+                   "features": [{"name": "q0", "kind": "quant", "flavour": "timestamp", "values": encs(xs)}],
+                   "y": [1 if (i * 3) % 8 < (x - 1700000000) else 0 for i, x in enumerate(xs)]})
+        # ... and the same boundaries in a hand-made BaseDiscretizer state (16 significant digits)
+        ks = [1.0 + j * 2.0 ** -50 for j in range(4)]
+        cs.append({"cls": "Base", "json": False, "y": [],
+                   "params": {"min_freq": 0.1, "output_dtype": "str", "dropna": True},
+                   "features": [{"name": "h0", "kind": "quant", "flavour": "hand",
+                                 "hand": {"keys": encs(ks + [math.inf]),
+                                          "content": [[enc(k), encs([k])] for k in ks + [math.inf]]},
+                                 "values": encs(ks + [2.0, 0.5])}]})
         # 1 and "1" in one qualitative column
         pool = [1, "1", "a", 2]
         xs = [pool[(i * 3 + i // 4) % 4] for i in range(120)]
@@ -686,7 +764,7 @@ class C04(Prop):
             force = {}
             r = rng.random()
             if r < 0.12:
-                force = {"kind": "quant", "qflavour": rng.choice(["yyyymm", "close"])}
+                force = {"kind": "quant", "qflavour": rng.choice(["yyyymm", "close", "timestamp"])}
             elif r < 0.24:
                 force = {"kind": "cat", "cflavour": rng.choice(["ints", "floats", "numstr", "mixed"])}
             cases.append(gen_case(rng, cls, force))
@@ -706,6 +784,10 @@ class C04(Prop):
         states = [extract_state(obj, n) for n in names]
         X = build_frame(case)
         cells = {n: encs(list(X[n])) for n in names}
+        import random
+        vrng = random.Random(len(case["y"]) * 7919 + 31 * len(case["features"]) + len(json.dumps(case["params"])))
+        variant = vrng.choice(INDEX_VARIANTS)
+        X = reindexed(X, variant, vrng)
         outs, exc = run_transform(obj, X, names)
         runs = []
         for n in names:
@@ -715,7 +797,8 @@ class C04(Prop):
             else:
                 cs, os_ = dedup_pairs(cells[n], outs[n])
                 runs.append({"cells": cs, "out": os_})
-        return {"features": states, "runs": runs, "exc": exc, "string_fit": string_fit_runs(case)}
+        return {"features": states, "runs": runs, "exc": exc, "index": variant,
+                "string_fit": string_fit_runs(case)}
 
     def oracle(self, case, out):
         for st, r in zip(out["features"], out["runs"]):
@@ -800,7 +883,8 @@ class C04(Prop):
     def distribution(self, cases, outs):
         d = {"classes": {}, "rows": {}, "n_features": {}, "flavours": {}, "output_dtype": {},
              "dropna": {}, "json_rebuilt": 0, "skipped": {}, "groups_per_feature": {},
-             "nan_share": {}, "transform_exceptions": 0, "cells_compared": 0, "string_fit_runs": 0}
+             "nan_share": {}, "transform_exceptions": 0, "cells_compared": 0, "string_fit_runs": 0,
+             "frame_index": {}}
 
         def inc(h, k):
             h[str(k)] = h.get(str(k), 0) + 1
@@ -818,6 +902,8 @@ class C04(Prop):
                 inc(d["nan_share"], round(nn / max(1, len(f["values"])), 1))
             if isinstance(o, dict) and "features" in o:
                 d["string_fit_runs"] += len(o.get("string_fit", []))
+                if "index" in o:
+                    inc(d["frame_index"], o["index"])
                 for st, r in zip(o["features"], o["runs"]):
                     inc(d["groups_per_feature"], len(st["keys"]))
                     d["cells_compared"] += len(r["cells"])
